@@ -288,7 +288,16 @@ def to_str(ctx, fr, v):
         r, _ = lift(lambda x: str(x), v)
         return r
     if isinstance(v, SInt):
-        raise Unsupported("str() of symbolic int")
+        # small non-negative integers (list positions): tabulated; anything else trips the bound
+        cap = 8
+        bound_if(ctx, fr, OR(LT(v.t, 0), GE(v.t, cap)), "str() of an integer outside 0..%d" % (cap - 1))
+        t = ATOMS.intern(str(cap - 1))
+        dom = [t]
+        for k in reversed(range(cap - 1)):
+            a = ATOMS.intern(str(k))
+            dom.append(a)
+            t = ITE(EQ(v.t, k), a, t)
+        return SAtom(t, dom)
     if isinstance(v, (Ref, Local)):
         return "<obj>"
     return str(v)
